@@ -19,7 +19,7 @@ def fn_ob(be, k, m, hd, lo, hi, beyond=False, rev=False, timeout=900, mem=4, l1=
 def plan(ctx):
     thorough = ctx.tier == "thorough"
     obs = []
-    tabs = TABLES if thorough else [(3, 3, 3), (5, 5, 3), (10, 5, 3), (6, 6, 3), (15, 6, 3), (5, 5, 4), (6, 5, 4), (10, 5, 4), (6, 6, 4), (12, 6, 4), (20, 6, 4)]
+    tabs = TABLES if thorough else [(3, 3, 3), (5, 5, 3), (10, 5, 3), (6, 6, 3), (5, 5, 4), (6, 5, 4), (10, 5, 4), (6, 6, 4)]
     for (k, m, hd) in tabs:
         obs.append(fn_ob(XOR, k, m, hd, 1, hd - 1))
         obs.append(fn_ob(XOR, k, m, hd, hd, m, beyond=True))
